@@ -65,6 +65,7 @@ func init() {
 }
 
 func runC04(c *Ctx) {
+	procStateFresh(c, "S1-per-packet-state")
 	c01Core(c, "C04")
 	hopFieldMacRule(c, "(*control/beaconing.DefaultExtender)")
 	c04VerifiedFields(c)
